@@ -1,6 +1,6 @@
 """EMCY rules (C15): transition gating, send gates (NMT + COB-ID valid), frame shape,
 1003h write rule, history ring shape - by folding each function over its input classes."""
-from canalyze.ir import walk, strip, const_eval, show, callee_name
+from canalyze.ir import is_pointer, walk, strip, const_eval, show, callee_name
 from canalyze.peval import PEval
 from rules.p_nmt import _mask_gate, mode_table, MODES, GATE_MODES
 
@@ -14,7 +14,7 @@ def _run(m, fname, inputs, filt=None):
         pe.store_filter = filt
     base = {}
     for prm in m.funcs[fname].params:
-        if (prm[2] or '').rstrip().endswith('*'):
+        if is_pointer(prm[2]):
             base[prm[0]] = 1
     base.update(inputs)
     return pe.run(base)
